@@ -96,6 +96,38 @@ def r12_1(ctx):
     ctx.floor("R12.1", "iterator step functions", n, 2)
 
 
+def r12_7(ctx):
+    """"then stop" is decided by the parser, not by the iterator: a step yields None only on the already-latched edge or
+    after the member driver (parse_entry_lazy / parse_array_elem_lazy) has run and reported the end of the container - a
+    truncated container must surface as an error item, not as a clean end"""
+    prog = ctx.prog()
+    for name in STEPS:
+        fns = [f for f in prog.fns.values() if f.name == name and f.crate == "sonic_rs"]
+        if len(fns) != 1:
+            ctx.fail_closed("R12.7", name)
+            continue
+        fn = fns[0]
+        sw = _field_switch(fn, "ending")
+        drivers = [(b, t) for b, t in fn.calls() if callee_is(t, "parse_entry_lazy", "parse_array_elem_lazy")]
+        if not sw or len(drivers) != 1:
+            ctx.ob("R12.7", f"{name}:anchors", False, fn.loc(), "latch test or member driver not found (fail closed)")
+            continue
+        sb, latched_t, open_t = sw[0]
+        db = drivers[0][0]
+        k = 0
+        for b, kind, s in return_kinds(fn):
+            if kind != "None":
+                continue
+            k += 1
+            # the block that gives None: all its predecessors chains come either from the latched edge only, or through the driver
+            via_latch_only = b in fn.reachable_from(latched_t) and b not in fn.reachable_from(open_t)
+            via_driver = fn.dominates(db, b)
+            ok = via_latch_only or via_driver
+            ctx.ob("R12.7", f"{name}:none#{k}", ok, fn.loc(s.get("ln")),
+                   "None is yielded " + ("on the already-latched edge" if via_latch_only else "after the member driver reported the end") if ok else
+                   "None can be yielded without the member driver having seen the closing bracket: a truncated container ends the iteration cleanly instead of with an error")
+
+
 def r12_2(ctx):
     prog = ctx.prog()
     want = {"to_array_iter": 1, "to_object_iter": 1, "to_array_iter_unchecked": 0, "to_object_iter_unchecked": 0}
@@ -267,4 +299,4 @@ def r12_s(ctx):
     ctx.include(c13.r13_6, 'R12.S')  # the unchecked iterators agree with the checked ones: escape carry across blocks
 
 
-RULES = [("R12.1", r12_1), ("R12.2", r12_2), ("R12.3", r12_3), ("R12.4", r12_4), ("R12.5", r12_5), ("R12.6", r12_6), ("R12.S", r12_s)]
+RULES = [("R12.1", r12_1), ("R12.2", r12_2), ("R12.3", r12_3), ("R12.4", r12_4), ("R12.5", r12_5), ("R12.6", r12_6), ("R12.7", r12_7), ("R12.S", r12_s)]
